@@ -22,6 +22,10 @@ const (
 	StatusUnknown   = transitions.StatusUnknown
 )
 
+// forwardGrace bounds how long a state already in flight waits for its consumer once the
+// subscriber's context has been cancelled.
+const forwardGrace = 100 * time.Millisecond
+
 // typicalTransitions is a set of standard transitions for a finite state machine.
 var typicalTransitions = transitions.Typical
 
@@ -56,7 +60,16 @@ func (s *Machine) getStateChanInternal(ctx context.Context, opts ...broadcast.Op
 	go func() {
 		defer close(wrappedCh)
 		for state := range userCh {
-			wrappedCh <- state
+			select {
+			case wrappedCh <- state:
+			case <-ctx.Done():
+				// The subscription is over. A consumer that is still reading gets the
+				// value; one that stopped reading must not pin this goroutine forever.
+				select {
+				case wrappedCh <- state:
+				case <-time.After(forwardGrace):
+				}
+			}
 		}
 	}()
 
